@@ -34,7 +34,8 @@ def make_config(rng, profile, tier):
         pool.append(eb.gen_valid(rng, pool, rows, betas, rng.randrange(1, 3)))
     formulas = [eb.gen_valid(rng, pool, rows, betas, rng.randrange(1, 4)) for _ in range(rng.randrange(2, 6))]
     return {'N': n, 'data_seed': seed, 'order_seed': rng.randrange(1 << 30), 'pool': pool, 'formulas': formulas,
-            'threads': rng.choice([1, 2, 3]), 'missing': rng.choice([99999, 99999, -55, 7777])}
+            'threads': rng.choice([1, 2, 3]), 'missing': rng.choice([99999, 99999, -55, 7777]),
+            'beta_bounds': eb.gen_bounds(rng)}
 
 
 def make_ops(rng, cfg, profile, tier):
@@ -118,6 +119,10 @@ class Session:
         self.dbs = [db.Database('e0', t0.copy()), db.Database('e1', t1.copy())]
         self.pool = list(self.cfg['pool'])
         self.formulas = list(self.cfg['formulas'])
+        eb.CURRENT_BOUNDS = dict(self.cfg.get('beta_bounds') or {})
+        if any(lo is not None and lo > eb.BETA_VALUES[n_] or hi is not None and hi < eb.BETA_VALUES[n_]
+               for n_, (lo, hi) in eb.CURRENT_BOUNDS.items()):
+            ctx.probe('a starting value outside its own bounds')
         self.builder = ref.Builder(eb.beta_specs(), pool=self.pool, share_elementary=True)
         self.exprs = {}          # formula index -> biogeme expression (built once: shared objects)
         self.biogemes = []       # dicts: b, idx list, dbi
